@@ -502,7 +502,10 @@ class FieldValueSelector:
                 msg = _("%r field doesn't have a simple type!")
                 raise XMLSchemaTypeError(msg % self.field)
             elif xsd_type.is_qname():
-                value = get_extended_qname(node.string_value.strip(), namespaces)
+                # A QName is resolved with the in-scope namespaces of the node that carries it
+                elem_node = node if isinstance(node, ElementNode) else node.parent
+                nsmap = getattr(elem_node, 'nsmap', None) or namespaces
+                value = get_extended_qname(node.string_value.strip(), nsmap)
             elif xsd_type.is_boolean():
                 # Workarounds for discovered issues with XPath processors
                 value = xsd_type.text_decode(node.string_value.strip())
